@@ -506,6 +506,28 @@ def fixed_cases(ctx):
     return out
 
 
+def replay(ctx, path):
+    """re-run the cases named in a replay file (cases are pure functions of (seed, case index); 'fixedN' are the hand-made ones)"""
+    import json
+    with open(path) as f:
+        j = json.load(f)
+    ctx.seed = j.get("seed", ctx.seed)
+    ctx.rule = "replay of %s" % path
+    fixed = fixed_cases(ctx)
+    for w in j["witnesses"]:
+        c = w.get("case")
+        if isinstance(c, int):
+            doc, feats = make_case(ctx.rng("c26", c))
+        elif isinstance(c, str) and c.startswith("fixed"):
+            doc, feats = fixed[int(c[5:])]
+        else:
+            continue
+        run_case(ctx, doc, feats, c)
+        ctx.sig("replay", c)
+        ctx.sample({"replayed_case": c})
+    ctx.min_distinct = 1
+
+
 def run(ctx):
     ctx.rule = ("random XML trees (depth <= 6, <= 40 elements; nested/re-declared namespace scopes; attributes of every Res_value type incl. raw values kept; "
                 "text chunks; resource-id map with known, unknown and name-stripped ids; UTF-8 and UTF-16 pools incl. 2-byte/2-unit length forms; comments; "
@@ -520,7 +542,7 @@ def run(ctx):
                        "trusted base: vf.model.axmlw (round-tripped through its own reader, which also reads every well-formed shipped AXML file)"]
     for i, (doc, feats) in enumerate(fixed_cases(ctx)):
         run_case(ctx, doc, feats, "fixed%d" % i)
-    n = 3200 if ctx.quick else 96000
+    n = 3200 if ctx.quick else 240000
     per = n // 16
     ctx.run_shards(MOD, "shard", [[k * per, (k + 1) * per] for k in range(16)], timeout=1500)
     ctx.require_counter("AXMLPrinter", 500)
